@@ -105,7 +105,20 @@ def eval_comp(ex: Exec, node) -> SV:
             body = ex.eval(node.elt)
         from . import lift
 
-        res, axioms = lift.map_term(ex, x, body.t, it.seq)
+        gm = lift.gather_shape(x, body.t)
+        if gm is not None:
+            res, axioms = lift.gather_term(gm, it.seq)
+            if not getattr(ex, "_gather_lemma", False):
+                ex._gather_lemma = True
+                if not getattr(ex, "_elt_def", False):
+                    ex._elt_def = True
+                    ex.assume(S.elt_definition())
+                for a in S.mem_definition():
+                    ex.assume(a)
+                ex.assume(lift.gather_frame_lemma())
+                ex.note_assumption("gather(M, S) = [M[k] for k in S]: an update of M at a key not occurring in S leaves gather(M, S) unchanged (extensionality lemma); mem(S, k) <=> k occurs in S")
+        else:
+            res, axioms = lift.map_term(ex, x, body.t, it.seq)
         if getattr(ex, "bound_depth", 0) == 0:
             for a in axioms:
                 ex.assume(a)
